@@ -18,6 +18,8 @@ WITNESS = "witness 2 R:64:64:0 N T%d" % TIMEOUT_MS   # the session of later_fram
 DOWNGRADE_KA = "downgrade-ka 2 R:32:32:0 N T%d K1 LA" % TIMEOUT_MS
 GREETING_11 = "greeting-1.1 2 R:64:64:0 R:0:0:0 V221"      # a reader that already greets with a 1.1 header
 EARLY_NOWAIT = "early-nowait 2 R:32:64:0 R:0:0:0 EN1"      # SendNoWait issued while the query is unanswered
+# C06_example_traffic: 1.1 negotiated, then a request answered with ERROR_MESSAGE/M_UnsupportedVersion
+TRAFFIC_110 = "traffic-110 2 R:32:64:0 R:0:0:0 P=FE110,a,MS,FS,a"
 
 
 NEVER_REPLY = set()     # message types this tree never delivers as a reply (probed in run())
@@ -138,6 +140,30 @@ def sessions(tier):
     for e in ("EN0", "ES0"):
         add(1, "R:64:64:0", "R:0:0:0", [e])
         add(1, "R:64:64:0", "R:0:0:0", ["LA", e])
+    # grid 7 — all subsequent traffic: after negotiation one exchange whose ANSWER ranges over
+    # everything (success, each status in the expected response / in an ERROR_MESSAGE, wrong type,
+    # none) through each API, then probes (ack, a request through each API, ack); + long mixed scripts
+    t1 = ["R:64:64:0", "R:32:64:0", "R:32:32:0", "R:64:32:0", "E:%d" % VER_UNSUPPORTED]
+    probe = "a,MS,FS,a"
+    answers = ["S", "W", "N"] + ["X%d" % c for c in sweep] + ["E%d" % c for c in sweep]
+    for api in ("F", "M"):
+        for ans in answers:
+            if thorough and ans[0] in "XE" and int(ans[1:]) > 1023 and api == "M" :
+                continue        # SendMessage does not look inside the reply: the small codes suffice
+            for a in (t1 if (not thorough or ans[0] not in "XE" or int(ans[1:]) < 1024) else ["R:32:64:0"]):
+                add(2, a, "R:0:0:0", ["P=%s%s,%s" % (api, ans, probe)])
+            add(1, "R:64:64:0", "R:0:0:0", ["P=%s%s,%s" % (api, ans, probe)])
+    for ans in ("S", "N"):
+        for a in t1:
+            add(2, a, "R:0:0:0", ["P=N%s,%s" % (ans, probe)])
+    mixed = ["FS,a,FE110,a,FX110,a,MW,MN,a,NS,FE100,MX401,a,FS",
+             "a,a,FE110,FE110,a,MS,FX109,FW,FN,a,ME110,a,NS,a",
+             "MX110,FE0,a,FX0,FE65535,a,FN,MN,FS,a"]
+    for scr in mixed:
+        for a in t1:
+            add(2, a, "R:0:0:0", ["P=" + scr])
+            add(2, a, "R:0:0:0", ["K1", "K2", "V212", "P=" + scr])
+        add(1, "R:64:64:0", "R:0:0:0", ["P=" + scr])
     # grid 4 — version bytes whose low five bits are not zero (the decoder must ignore them)
     if thorough:
         extra = [(cb, mb) for cb in range(256) for mb in range(256) if (cb & 31) or (mb & 31)]
@@ -145,7 +171,7 @@ def sessions(tier):
         extra = [((c << 5) | 31, (m << 5) | (1 + (c * 8 + m) % 31)) for c in range(8) for m in range(8)]
     for cb, mb in extra:
         add(2, "R:%d:%d:0" % (cb, mb), "R:0:0:0")
-    return [WITNESS, DOWNGRADE_KA, GREETING_11, EARLY_NOWAIT] + main, over, sweep_desc
+    return [WITNESS, DOWNGRADE_KA, GREETING_11, EARLY_NOWAIT, TRAFFIC_110] + main, over, sweep_desc
 
 
 EARLY_TYPE = {"EN": 64, "ES": 3}   # SendNoWait(ENABLE_EVENTS_AND_REPORTS) / SendMessage(SET_READER_CONFIG)
@@ -158,14 +184,39 @@ def early_of(opts):
     return None
 
 
+def traffic_of(opts):
+    for o in opts:
+        if o.startswith("P="):
+            return o[2:].split(",")
+    return None
+
+
+def traffic_tokens(script):
+    """oracle tokens of a traffic script: requests written, the answers their callers get, acks"""
+    out, k = [], 0
+    for st in script:
+        if st == "a":
+            out.append("A")
+            continue
+        out.append("Q%d:%08x" % (21 + k % 5, k + 1))
+        k += 1
+        a = st[1:]
+        out.append({"S": "RS", "N": "RN", "W": "RW:12"}.get(a) or ("RX:" + a[1:] if a[0] == "X" else "RE:" + a[1:]))
+    return " ".join(out)
+
+
 def model_request(line, prestamp, override):
     f = line.split()
     g = lambda r: "G" if r.startswith("G") else eff(r)
     opts = f[4:]
-    later = LATER_A if "LA" in opts else LATER_Q
-    e = early_of(opts)
-    if e:   # the early caller's message is the first thing written once Connect has proceeded
-        later = "Q%d: %s" % (EARLY_TYPE[e[:2]], later)
+    tr = traffic_of(opts)
+    if tr is not None:
+        later = traffic_tokens(tr)
+    else:
+        later = LATER_A if "LA" in opts else LATER_Q
+        e = early_of(opts)
+        if e:   # the early caller's message is the first thing written once Connect has proceeded
+            later = "Q%d: %s" % (EARLY_TYPE[e[:2]], later)
     return "%d %d %s %d %d %s %s %s" % (prestamp, override, f[1], "K1" in opts, "K2" in opts, g(f[2]), g(f[3]), later)
 
 
@@ -257,6 +308,19 @@ def judge(cmax, r1, r2, ob, opts=()):
                 v.append(("set-version-when-not-needed", "SET_PROTOCOL_VERSION sent though not called for (%s)" % d["why"]))
             else:
                 v.append(("set-version-missing", "reader's current version differs from the chosen one but %d SET_PROTOCOL_VERSION frames were sent" % nset))
+        if d["version"] is not None and d["sets"] == 1:
+            # "asks the reader to switch [to the version settled on]": the one payload byte must name
+            # that version, in either of the two encodings this library itself uses for a version
+            # byte (the number, or the number in the top three bits); WHICH encoding is not judged
+            # (DESIGN §7) — a change of encoding is a difference from the model only
+            named = set()
+            for fr in negf:
+                if fr[1] == 47:
+                    named.add(fr[2])
+            okp = {"%02x" % d["version"], "%02x" % ((d["version"] << 5) & 255)}
+            if named and not (named <= okp):
+                v.append(("set-version-names-wrong-version",
+                          "SET_PROTOCOL_VERSION payload %s does not name the settled version %d" % (sorted(named), d["version"])))
     out = "fails" if ob["outcome"] == "panic" and kind(r1) == "O" else ob["outcome"]
     if out not in ("proceeds", "fails"):
         v.append(("connect-" + out, "Connect did not end normally (%s) for %s / %s" % (out, r1, r2)))
@@ -270,6 +334,9 @@ def judge(cmax, r1, r2, ob, opts=()):
         if ob["cver"] != want:
             v.append(("negotiated-version-not-min", "client settled on version %d; min(client max, reader max) is %d (%s)" % (ob["cver"], want, d["why"])))
         want = ob["cver"]      # a wrong choice is reported above; "sticks to it" is about the choice made
+        if ob["cver_end"] != ob["cver"]:
+            v.append(("version-changed-after-negotiation",
+                      "the client settled on version %d but its version is %d after the later traffic (no renegotiation took place)" % (ob["cver"], ob["cver_end"])))
         req = [f for f in allf if f[1] not in (46, 47, 72)]
         ack = [f for f in after if f[1] == 72]
         if [f for f in req if f[0] != want]:
@@ -280,6 +347,9 @@ def judge(cmax, r1, r2, ob, opts=()):
                       "after settling on version %d the keep-alive ack carries version bits %s" % (want, [f[0] for f in ack])))
         nack = 2 if "LA" in opts else 1
         nreq = 3 if early_of(opts) else 2
+        tr = traffic_of(opts)
+        if tr is not None:
+            nack, nreq = tr.count("a"), len(tr) - tr.count("a")
         if len([f for f in allf if f[1] not in (46, 47, 72)]) != nreq or len(ack) != nack:
             v.append(("later-traffic-missing", "expected %d application frames and %d ack(s) after negotiation, saw %s" % (nreq, nack, after)))
     return v
@@ -287,9 +357,9 @@ def judge(cmax, r1, r2, ob, opts=()):
 
 def project_go(line, r1):
     f = line.split()
-    if len(f) < 9:
+    if len(f) < 10:
         return None
-    ob = dict(sid=f[0], outcome=f[1], cver=int(f[2]), before=frames(f[3]), after=frames(f[4]), aux=f[5:9], raw=line)
+    ob = dict(sid=f[0], outcome=f[1], cver=int(f[2]), before=frames(f[3]), after=frames(f[4]), aux=f[5:9], cver_end=int(f[9]), raw=line)
     return ob
 
 
@@ -406,14 +476,15 @@ def run(tier, seed, replay=None):
         cmax, r1, r2, opts, ob = observe(line, g)
         f = line.split()
         shape = [o for o in opts if not o.startswith("T")]
-        key = "cmax=%d r1=%s r2=%s %s" % (cmax, kind(r1), kind(r2), "+".join(shape) or "plain")
+        key = "cmax=%d r1=%s r2=%s %s" % (cmax, kind(r1), kind(r2),
+                                          "+".join("traffic" if o.startswith("P=") else "V" if o.startswith("V") else o for o in shape) or "plain")
         dist[key] = dist.get(key, 0) + 1
         mo_t, mo_c = project_model(mt), project_model(mc)
         replay_d = dict(kind="session", correspondence="C06/negotiate-vs-Connect", cases=[line], observed=g,
                         model_today=mt, model_conforming=mc, demanded=demanded(cmax, r1, r2),
                         how="request line of harness/llrp/c06_test.go: <sid> <client max> <reaction to GET_SUPPORTED_VERSION> <reaction to SET_PROTOCOL_VERSION> "
                             "[T<ms> client timeout] [K1|K2: KEEPALIVE while the query|switch is unanswered] [LA: after negotiation ack first] "
-                            "[V<g><n><l>: header versions the reader uses for greeting / during / after negotiation] [EN|ES 0|1|2: early SendNoWait|SendMessage before Connect | during query | during switch]; "
+                            "[P=<steps>: traffic script after negotiation: a = keep-alive, <M|F|N><S|X<st>|E<st>|W|N> = request via SendMessage|SendFor|SendNoWait answered with success | status in response | status in ERROR_MESSAGE | wrong type | nothing] [V<g><n><l>: header versions the reader uses for greeting / during / after negotiation] [EN|ES 0|1|2: early SendNoWait|SendMessage before Connect | during query | during switch]; "
                             "observed: <outcome> <Client.version> <frames before outcome> <frames after> (version:type:payload)")
         if ob is None or mo_t is None or mo_c is None:
             res.violation("harness-answer", "unreadable answer for %s: go=%r model=%r" % (line, g, mt), replay_d, False)
@@ -447,6 +518,8 @@ def run(tier, seed, replay=None):
                 ("reader-goes-down-ack-first", cmax == 2 and r1 == "R:64:32:0" and r2 == "R:0:0:0" and shape == ["LA"]),
                 ("greeting-at-1.1", f[0] == "greeting-1.1"),
                 ("early-sendnowait-during-query", f[0] == "early-nowait"),
+                ("traffic-after-error-110", f[0] == "traffic-110"),
+                ("traffic-mixed", cmax == 2 and r1 == "R:64:32:0" and any(o.startswith("P=FS,a,FE110") for o in opts) and "K1" in opts),
                 ("early-sendmessage-before-connect", cmax == 2 and r1 == "R:32:64:0" and r2 == "R:0:0:0" and shape == ["ES0"])]
         for name, cond in want:
             if cond and name not in sampled:
@@ -469,7 +542,7 @@ def run(tier, seed, replay=None):
     res.notes.append("types never delivered as replies by this tree (probed): %s" % sorted(NEVER_REPLY))
     res.coverage.update(
         evaluations=n, distinct_nontrivial=len(nontriv),
-        rule="the union of six completely enumerated grids. (1) reactions: client max {1.0.1, 1.1} x reaction to GET_SUPPORTED_VERSION "
+        rule="the union of seven completely enumerated grids. (1) reactions: client max {1.0.1, 1.1} x reaction to GET_SUPPORTED_VERSION "
              "(response with current,max in 0..7 and status in {0,110,100}; ERROR_MESSAGE with those statuses; wrong types; oversize; three undecodable "
              "payloads; silence) x reaction to SET_PROTOCOL_VERSION (same kinds). (2) status codes (%s), one session each in the four places a status "
              "can stand: ERROR_MESSAGE to the query, status of the query's response, status of the switch's response, ERROR_MESSAGE to the switch. "
@@ -480,6 +553,10 @@ def run(tier, seed, replay=None):
              "each 0..7 (quick: each axis alone + equal triples; thorough: all 512) x six readers x client max. (6) an early caller — SendNoWait or "
              "SendMessage issued before Connect / while the query is unanswered / while the switch is unanswered — x {64 successful responses, E:110, "
              "E:100, wrong type} x {switch accepted, refused} (thorough: all reactions), + combinations with keep-alives, order and header versions. "
+             "(7) all subsequent traffic: after negotiation one request through SendFor / SendMessage / SendNoWait whose answer is success, every swept "
+             "status in the expected response and in an ERROR_MESSAGE, a wrong type, or nothing, followed by ack, SendMessage, SendFor, ack; plus three "
+             "mixed scripts of 10-14 steps (also with keep-alives inside negotiation and other header versions) x five readers x client max; every "
+             "frame's version bits are judged. "
              "'Before the end of negotiation' = read by the reader before it sent its last negotiation answer. Each session = Connect on net.Pipe, then two SendMessage requests and one or two KEEPALIVEs "
              "in the stated order, every frame's version bits recorded; non-trivial iff client max is 1.1 (negotiation takes place); distinct by "
              "(client max, reaction 1, reaction 2, keep-alive points, order)" % sweep_desc,
